@@ -375,7 +375,8 @@ pub fn closure_case(name: &str, world: &FcWorld, extra_meta: Value, mut dist: Ve
 
 pub fn run(cfg: &RunCfg) {
   let thorough = cfg.tier == Tier::Thorough;
-  let n_seq: u64 = if thorough { 60_000 } else { 6_000 };
+  // stream sizes are chosen so that the stride of the in-Coq sample of tools/check meets all four streams
+  let n_seq: u64 = if thorough { 60_000 } else { 2_119 };
   let universe = if thorough { 3 } else { 2 };
   let curs = all_imported(2, universe, false);
   // increments with the keys in the opposite insertion order, so that order handling is exercised
@@ -384,21 +385,21 @@ pub fn run(cfg: &RunCfg) {
   let corpus = load_corpus();
   let n_corpus = corpus.len() as u64;
   let n_gen: u64 = if thorough { 12_000 } else { 700 };
-  let total = n_seq + n_pairs + n_corpus + n_gen;
+  let total = n_pairs + n_gen + n_corpus + n_seq;
   run_cases(cfg, total, |seed, k| {
-    if k < n_seq {
-      lattice_seq_case(seed, k)
-    } else if k < n_seq + n_pairs {
-      lattice_pairs_case(&curs[(k - n_seq) as usize], &news, universe)
-    } else if k < n_seq + n_pairs + n_corpus {
-      let (name, world) = &corpus[(k - n_seq - n_pairs) as usize];
-      closure_case(name, world, json!({}), vec![("corpus_specs".into(), 1)])
-    } else {
+    if k < n_pairs {
+      lattice_pairs_case(&curs[k as usize], &news, universe)
+    } else if k < n_pairs + n_gen {
       let mut rng = Rng::for_case(seed, k);
       let (world, info) = gen_world(&mut rng, &GenCfg { max_pkgs: 3, fail_pct: 12, cross_pkg_star: true });
       let mut dist: Vec<(String, u64)> = info.kinds.iter().map(|(k, v)| (format!("gen_{}", k), *v)).collect();
       dist.push(("generated_worlds".into(), 1));
       closure_case(&format!("gen-{}", k), &world, json!({"packages": info.pkgs.iter().map(|p| json!({"name": p.name, "modules": p.modules, "exports": p.exports, "failing": p.failing})).collect::<Vec<_>>()}), dist)
+    } else if k < n_pairs + n_gen + n_corpus {
+      let (name, world) = &corpus[(k - n_pairs - n_gen) as usize];
+      closure_case(name, world, json!({}), vec![("corpus_specs".into(), 1)])
+    } else {
+      lattice_seq_case(seed, k)
     }
   });
 }
